@@ -391,6 +391,30 @@ theorem C18_back_lone_newline : loadedBack "DA.Namespace" (cfgWith "DA.Namespace
 theorem C18_save_load_fails_lone_newline : ¬ SaveLoadIdentity table (cfgWith "DA.Namespace" "\n") :=
   not_identity_of_loadedBack C18_back_lone_newline (by decide) (by decide)
 
+/-- KNOWN FINDING `saveload/multiline-block-reread-differently`: an empty first line before an indented
+one — goccy writes a literal block without indentation indicator, yaml.v3 takes the indentation of
+the first non-empty line: the leading space is gone -/
+theorem C18_back_multiline : loadedBack "DA.Namespace" (cfgWith "DA.Namespace" "\n a") = some (.ok ("\na", .file)) := by decide +kernel
+theorem C18_save_load_fails_multiline : ¬ SaveLoadIdentity table (cfgWith "DA.Namespace" "\n a") :=
+  not_identity_of_loadedBack C18_back_multiline (by decide) (by decide)
+/-- KNOWN FINDING `saveload/multiline-block-file-unparsable-silently-ignored`: … and a later line
+shallower than that one ends the block early: the file is no YAML, every option gets its default -/
+theorem C18_back_multiline_broken : loadedBack "DA.Namespace" (cfgWith "DA.Namespace" "\n  a\n b")
+      = (table.fields.find? (·.go = "DA.Namespace")).map (fun f => .ok (f.dflt, .dflt)) := by decide +kernel
+
+/-- values with LF line breaks (`Yaml.lfBlock`): what survives, what does not, and what depends on
+the nesting depth of the key (the `TrimSuffix` of goccy eats as many trailing spaces as the block is indented) -/
+example : Yaml.roundTrip 1 "a\n  b\nc".toList = .same ∧ Yaml.roundTrip 1 "a  \nb\n\n".toList = .same ∧
+    Yaml.roundTrip 1 "a    \n".toList = .retyped "a\n".toList ∧ Yaml.roundTrip 0 "a    \n".toList = .retyped "a  \n".toList ∧
+    Yaml.roundTrip 1 "a \n \n".toList = .retyped "a \n".toList ∧ Yaml.roundTrip 1 "\n  a\n b".toList = .fileBroken := by decide
+/-- written double-quoted today (first character `{` or a space): safe … -/
+example : Yaml.roundTrip 1 "{\n  \"fee\": 1\n}".toList = .same ∧ Yaml.roundTrip 1 "  {\n    \"fee\": 1\n  }".toList = .same ∧
+    Yaml.roundTrip 1 " {\n  \"fee\": 1\n}".toList = .same := by decide
+/-- … and what a writer that puts EVERY multi-line value into a literal block would make of them
+(`yaml.UseLiteralStyleIfMultiline`, seeded change C18-G): indentation lost / file refused -/
+example : Yaml.lfBlock 1 "  {\n    \"fee\": 1\n  }".toList = .retyped "{\n  \"fee\": 1\n}".toList ∧
+    Yaml.lfBlock 1 " {\n  \"fee\": 1\n}".toList = .fileBroken ∧ Yaml.lfBlock 1 "  \n fee=1".toList = .fileBroken := by decide
+
 /-- the same classes at the value level (`Model/ConfigYaml.lean`), with their neighbours on the good side -/
 example : Yaml.roundTripS ".inf" = .retyped "+Inf".toList ∧ Yaml.roundTripS "-.INF" = .retyped "-Inf".toList ∧
     Yaml.roundTripS ".NaN" = .retyped "NaN".toList ∧ Yaml.roundTripS ".Nan" = .same := by decide
@@ -402,7 +426,8 @@ example : Yaml.roundTripS "5E-2" = .retyped "0.05".toList ∧ Yaml.roundTripS "1
     Yaml.roundTripS "-0e1" = .retyped "-0".toList ∧ Yaml.roundTripS "1.5e3" = .same ∧ Yaml.roundTripS "_1e3" = .same := by decide
 example : Yaml.roundTripS "? a" = .fileBroken ∧ Yaml.roundTripS "?a" = .same ∧ Yaml.roundTripS "? #" = .same := by decide
 example : Yaml.roundTripS "2001-1-1" = .loadError ∧ Yaml.roundTripS "2001-13-1" = .same ∧ Yaml.roundTripS "2001-01-01" = .same := by decide
-example : Yaml.roundTripS "a\tb" = .same ∧ Yaml.roundTripS "\tb" = .unmodelled ∧ Yaml.roundTripS "a\r\nb" = .unmodelled := by decide
+example : Yaml.roundTripS "a\tb" = .same ∧ Yaml.roundTripS "\tb" = .unmodelled ∧ Yaml.roundTripS "a\r\nb" = .unmodelled ∧
+    Yaml.roundTripS "a\tb\nc" = .unmodelled := by decide
 example : Yaml.YamlSafe "plain" = true ∧ Yaml.YamlSafe "/ip4/0.0.0.0/tcp/7676" = true ∧ Yaml.YamlSafe "12e4" = false := by decide
 
 /-- the witnesses are configurations -/
